@@ -90,9 +90,32 @@ def property_cases(c, ops_file, impl_file, hbin, exe, limit=3, budget=120):
         c.problems.append(Problem("property", "property oracle fails on the implementation", cur, det))
 
 
+def facts(c):
+    """KVTxn.Commit: the `defer ...TxnLatches().UnLock(lock)` follows the `TxnLatches().Lock(` call before any `return`
+    (so the unlock runs on every exit, the stale early return included). The model's Commit wrapper follows this fact."""
+    src = c.facts_raw(["funcsrc", os.path.join(vcheck.REPO, "txnkv/transaction/txn.go"), "Commit"])
+    if src is None:
+        return False
+    i = src.find("TxnLatches().Lock(")
+    ok = False
+    if i >= 0:
+        rest = src[i:]
+        d = rest.find("defer txn.store.TxnLatches().UnLock(lock)")
+        r = rest.find("return")
+        ok = d >= 0 and (r < 0 or d < r)
+    else:
+        c.problems.append(Problem("tie", "KVTxn.Commit no longer calls TxnLatches().Lock( — the C17 client-level tie does not apply", ["Commit"]))
+        return False
+    c.cov["commit_unlock_deferred_before_any_return"] = ok
+    c.write_generated("LatchCommit", "namespace CGV.Gen\n/-- KVTxn.Commit defers TxnLatches().UnLock(lock) right after Lock, before any return -/\n"
+                      f"def commitUnlockOnEveryExit : Bool := {'true' if ok else 'false'}\nend CGV.Gen\n")
+    return True
+
+
 def run(a):
     c = Check(PID, a.tier, a.seed)
     setup(c)
+    facts(c)
     exe = c.build_driver(EXE)
     hbin = c.build_harness(HARNESS)
     if exe and hbin:
@@ -114,6 +137,7 @@ def replay(a):
     """re-execute the failing cases of a replay file against the current tree and the model"""
     c = Check(PID, a.tier, a.seed)
     setup(c)
+    facts(c)
     rp = json.load(open(a.replay))
     cases = [p["case"] for p in rp["problems"] if p["kind"] in ("property", "correspondence") and p["case"]]
     exe = c.build_driver(EXE)
